@@ -531,3 +531,29 @@ Proof.
   intros H. specialize (H 2 (CIsInt (CIsByte (CLit 300)))). simpl in H.
   assert (1 <= 2) as H1 by lia. specialize (H H1). vm_compute in H. discriminate.
 Qed.
+
+(* ------------------------------------------------------------------------------------------ *)
+(** * The hypotheses of the implications above are satisfiable *)
+
+Lemma inrange_hyps_example :
+  1 <= 2 /\ In ODiv divmod /\ in_range 2 (-7) /\ in_range 2 2 /\
+  fold_arith2 ODiv (-7) 2 = FVal (-4) /\ in_range 2 (-4) /\
+  rt_op2 2 ODiv (wrap 2 (-7)) (wrap 2 2) = RVal (wrap 2 (-4)).
+Proof. repeat split; try (vm_compute; auto; fail); try lia; vm_compute; intros; discriminate. Qed.
+
+Lemma compare_hyps_example :
+  1 <= 2 /\ In OLt compare6 /\ in_range 2 (-32768) /\ in_range 2 32767 /\
+  fold_bool2 OLt (-32768) 32767 = FVal true /\
+  rt_op2 2 OLt (wrap 2 (-32768)) (wrap 2 32767) = RVal 1.
+Proof. repeat split; try (vm_compute; auto; fail); try lia; vm_compute; intros; discriminate. Qed.
+
+Lemma ring_hyps_example :
+  1 <= 2 /\ ring_only (CBin OMul (CLit 40000) (CUn ONeg (CLit 3))) = true /\
+  cfold (CBin OMul (CLit 40000) (CUn ONeg (CLit 3))) = FVal (-120000) /\
+  crt 2 (CBin OMul (CLit 40000) (CUn ONeg (CLit 3))) = RVal (wrap 2 (-120000)).
+Proof. repeat split; try lia; vm_compute; reflexivity. Qed.
+
+Lemma reject_hyps_example :
+  In ODiv (ring2 ++ divmod) /\ is_val (fold_arith2 ODiv 5 0) = false /\
+  rt_op2 2 ODiv (wrap 2 5) (wrap 2 0) = RFault.
+Proof. repeat split; vm_compute; auto. Qed.
